@@ -238,7 +238,8 @@ func AnyRoot(name string, C, K int) AnyBuf {
 // AnyRootWindow is the type-erased kit.RootWindow: a sentinel-filled root and
 // the window root.Slice(a,b) (+ partial appended samples), built in construction
 // order fix (0: fill through the root header then slice; 1: slice first, then
-// fill through the root; 2: fill through an alias, then slice from the root).
+// fill through the root; 2: fill through an alias, then slice from the root;
+// 4+s: content appended in two pieces, see RootWindow).
 func AnyRootWindow(name string, C, K, a, b, partial, fix int) (root, w AnyBuf) {
 	root = AllocAny(name, signal.Allocator{Channels: C, Length: K, Capacity: K})
 	fillVia := root
@@ -250,6 +251,28 @@ func AnyRootWindow(name string, C, K, a, b, partial, fix int) (root, w AnyBuf) {
 	}
 	for p := 0; p < C*K; p++ {
 		fillVia.Set(p, IV(Sentinel(p)))
+	}
+	if n := C*(b-a) + partial; fix >= 4 && n >= 2 {
+		n1 := fix - 3
+		if n1 > n-1 {
+			n1 = n - 1
+		}
+		val := func(q int) Val {
+			if q < C*(b-a) {
+				return IV(Sentinel(C*a + q))
+			}
+			return IV(PartialVal(q - C*(b-a)))
+		}
+		w = root.Slice(a, a)
+		for q := 0; q < n1; q++ {
+			w.AppendSample(val(q))
+		}
+		rest := AllocAny(name, signal.Allocator{Channels: C, Length: 0, Capacity: (n-n1)/C + 1})
+		for q := n1; q < n; q++ {
+			rest.AppendSample(val(q))
+		}
+		w.Append(rest)
+		return root, w
 	}
 	if w == nil {
 		w = root.Slice(a, b)
